@@ -14,15 +14,45 @@ from speclib import *
 from spec.c15 import *
 
 
-class RI__visit_block(Contract):
-    target = 'fpy2.analysis.reachability:_ReachabilityInstance._visit_block'
-    params = {'self': '_ReachabilityInstance', 'block': 'Key[StmtBlock]', 'ctx': '_ReachabilityCtx'}
+class RI__visit_statement(Contract):
+    target = 'fpy2.analysis.reachability:_ReachabilityInstance._visit_statement'
+    params = {'self': '_ReachabilityInstance',
+              'stmt': 'Assign | IndexedAssign | If1Stmt | IfStmt | WhileStmt | ForStmt | ContextStmt | AssertStmt | EffectStmt | ReturnStmt | PassStmt',
+              'ctx': '_ReachabilityCtx'}
+    overrides = {'stmt.target': 'Key[NamedId] | UnderscoreId | Key[TupleBinding]', 'stmt.expr': 'Key[Expr]',
+                 'stmt.cond': 'Key[Expr]', 'stmt.body': 'Key[StmtBlock]', 'stmt.ift': 'Key[StmtBlock]',
+                 'stmt.iff': 'Key[StmtBlock]', 'stmt.iterable': 'Key[Expr]', 'stmt.ctx': 'Key[Expr]',
+                 'stmt.test': 'Key[Expr]', 'stmt.msg': 'Key[Expr] | None', 'stmt.var': 'Key[NamedId]',
+                 'stmt.indices': 'KeySeq[Expr]'}
+    split = ['stmt']
     returns = 'bool'
     properties = ['C15']
-    trusted = True
     modifies = ['self.has_entry', 'self.has_exit', 'self.ret_stmts']
-    note = ('ASSUMED: _ReachabilityInstance._visit_block(block, ctx) returns cc_block(block, ctx.is_reachable), an '
-            'uninterpreted function of the block and the entry flag, changing only has_entry/has_exit/ret_stmts')
+    note = ('verified per statement class: records has_entry/has_exit, dispatches (ast/visitor.py) to the rule of the '
+            'class and returns cc_stmt(stmt, entry) = the can-complete rule of spec/c15.py')
+
+    def post(self, stmt, ctx, result):
+        return {'cc': result == cc_stmt(stmt, ctx.is_reachable)}
+
+    def raises(self, stmt, ctx):
+        return {}
+
+
+class RI__visit_block(Contract):
+    target = 'fpy2.analysis.reachability:_ReachabilityInstance._visit_block'
+    params = {'self': '_ReachabilityInstance', 'block': 'StmtBlock', 'ctx': '_ReachabilityCtx'}
+    overrides = {'block.stmts': 'KeySeq[Stmt]'}
+    returns = 'bool'
+    properties = ['C15']
+    modifies = ['self.has_entry', 'self.has_exit', 'self.ret_stmts']
+    options = {'loop_modifies': {0: ['self.has_entry', 'self.has_exit', 'self.ret_stmts']}}
+    note = ('verified: loop over block.stmts with invariant inv0; axioms = DEFINITION of cc_block as the fold of cc_stmt')
+
+    def axioms(self, block, ctx):
+        return cc_fold_def(block, ctx.is_reachable)
+
+    def inv0(self, block, ctx, done, old):
+        return {'cc': ctx.is_reachable == cc_prefix(block, done, old.ctx.is_reachable)}
 
     def post(self, block, ctx, result):
         return {'cc': result == cc_block(block, ctx.is_reachable)}
